@@ -1052,10 +1052,17 @@ class CParser:
 
     # BNF: atomic_specifier : _ATOMIC '(' type_name ')'
     def _parse_atomic_specifier(self) -> c_ast.Node:
-        self._expect("_ATOMIC")
+        tok = self._expect("_ATOMIC")
         self._expect("LPAREN")
         typ = self._parse_type_name()
         self._expect("RPAREN")
+        if isinstance(typ.type, (c_ast.ArrayDecl, c_ast.FuncDecl)):
+            # C11 6.7.2.4: the type name shall not refer to an array or
+            # function type (there is nothing to attach the qualifier to).
+            self._parse_error(
+                "_Atomic(...) applied to an array or function type",
+                self._tok_coord(tok),
+            )
         typ.quals.append("_Atomic")
         return typ
 
